@@ -154,7 +154,7 @@ Definition law_hyps (l : law) (p : program) : bool :=
       end
   | LUnroll i =>
       match remove_nth i p with
-      | Some (Repeat _ body, r) => forallb (plainf (lnames r)) body
+      | Some (Repeat (Lit (LNum _ _ _ _ n)) body, r) => (Z.of_N n <=? 65536) && forallb (plainf (lnames r)) body
       | _ => false
       end
   | LInsert i =>
